@@ -1,6 +1,7 @@
 (* C03 - Answers are fully reified, closed and carry their relevant constraints. *)
 From Coq Require Import List ZArith Bool Arith.
-From PV Require Import Model.Term Model.Subst Model.Unify Model.FD Model.State Model.Engine Proofs.ReifyProofs.
+From PV Require Import Model.Term Model.Subst Model.Unify Model.FD Model.State Model.Engine Proofs.UnifyProofs Proofs.ReifyProofs
+  Proofs.Acyc Proofs.ScopeElab Proofs.ScopeState Proofs.ScopeReify.
 Import ListNotations.
 
 (* the constraints reported with an answer mention only reified variables of that answer
@@ -26,8 +27,35 @@ Example C03_compound_example :
   relevant_constraints (TComp 7 (TMore (tnum 1) (TMore (TVar 5 true) TNil))) [[(5, tnum 3)]] = [[(5, tnum 3)]].
 Proof. vm_compute. reflexivity. Qed.
 
+(* one reified name per unbound variable, all new.  From an acyclic substitution whose variables are
+   below the counter n (which holds in every state of every execution: C01_acyclic_everywhere,
+   C15_scoped_everywhere), reifying a term t below n adds bindings new with: every value is an
+   any-variable _m with n <= m < n', the names are pairwise different and so are the variables they
+   rename, each was unbound before; the result is again acyclic and below the new counter.  So a
+   reified name never coincides with a variable of the state or of the term, two different unbound
+   variables never share a name, and (the substitution being a function) all occurrences of one
+   variable - across all query variables of the answer - resolve to the same name. *)
+Theorem C03_reified_names : forall f s n t s' n',
+  acyc s -> smapb n s -> tb n t -> reify_s f s n t = Some (s', n') ->
+  acyc s' /\ smapb n' s' /\ n <= n' /\ exists new, s' = new ++ s /\ rnew s n n' new.
+Proof. intros f. exact (proj1 (reify_scope f)). Qed.
+(* unfolding rnew, for readers *)
+Theorem C03_reified_names_reading : forall s n n' new, rnew s n n' new ->
+  (forall v u, In (v, u) new -> exists m, u = TVar m true /\ n <= m < n') /\
+  NoDup (map snd new) /\ NoDup (map fst new) /\ (forall v u, In (v, u) new -> lookup v s = None).
+Proof. intros s n n' new H. exact H. Qed.
+(* a variable met twice: its any-variable is renamed once more, and every occurrence resolves to one name *)
+Example C03_reified_names_example :
+  let s := [(0, TCons (TVar 1 false) (TCons (TVar 2 false) (TCons (TVar 1 false) TEmpty)))] in
+  reify_s dfuel s 3 (TVar 0 false) = Some ([(3, TVar 5 true); (2, TVar 4 true); (1, TVar 3 true)] ++ s, 6) /\
+  walk_star dfuel ([(3, TVar 5 true); (2, TVar 4 true); (1, TVar 3 true)] ++ s) (TVar 0 false) =
+    Some (TCons (TVar 5 true) (TCons (TVar 4 true) (TCons (TVar 5 true) TEmpty))).
+Proof. vm_compute. split; reflexivity. Qed.
+
 Check C03_constraints_complete : forall t cs ps,
   In ps (relevant_constraints t cs) <-> In ps cs /\ exists v, any_occurs v t /\ operand v ps.
 Print Assumptions C03_reported_constraints_closed.
 Print Assumptions C03_constraints_complete.
 Print Assumptions C03_reify_extends.
+Print Assumptions C03_reified_names.
+Print Assumptions C03_reified_names_reading.
